@@ -10,6 +10,7 @@ import (
 	abci "github.com/cometbft/cometbft/abci/types"
 
 	sdk "github.com/cosmos/cosmos-sdk/types"
+	slashingtypes "github.com/cosmos/cosmos-sdk/x/slashing/types"
 	stakingtypes "github.com/cosmos/cosmos-sdk/x/staking/types"
 
 	channeltypes "github.com/cosmos/ibc-go/v10/modules/core/04-channel/types"
@@ -242,6 +243,15 @@ func (m *monC08) AfterBlock(c *Chain, req *abci.RequestFinalizeBlock, res *abci.
 	var jailedPower, maxSingle int64
 	keyTouched := map[string]bool{} // consumers whose key mapping may have changed earlier in this block
 	imprecise := map[string]bool{}
+	// validators whose staking state (status, jailed flag, power) may have been changed by a transaction earlier in this
+	// block (e.g. an operator undelegating below the minimum self-delegation is jailed by x/staking): the pre-block
+	// snapshot is then not what the slash handler saw
+	stakeTouched := map[string]bool{}
+	touch := func(valoper string) {
+		if v := w.valByOper(valoper); v != nil {
+			stakeTouched[consHex(v.ConsAddr())] = true
+		}
+	}
 	for _, o := range txs {
 		isRelay := len(o.Spec.Tag) >= 5 && (o.Spec.Tag[:5] == "relay" || o.Spec.Tag == "keepalive")
 		if !isRelay && o.Spec.Tag != "vote" {
@@ -268,6 +278,14 @@ func (m *monC08) AfterBlock(c *Chain, req *abci.RequestFinalizeBlock, res *abci.
 				}
 			case *providertypes.MsgRemoveConsumer:
 				stoppedNow[t.ConsumerId] = true
+			case *stakingtypes.MsgUndelegate:
+				touch(t.ValidatorAddress)
+			case *stakingtypes.MsgBeginRedelegate:
+				touch(t.ValidatorSrcAddress)
+			case *slashingtypes.MsgUnjail:
+				touch(t.ValidatorAddr)
+			case *stakingtypes.MsgCreateValidator:
+				touch(t.ValidatorAddress)
 			case *providertypes.MsgAssignConsumerKey:
 				keyTouched[t.ConsumerId] = true
 			case *providertypes.MsgOptIn:
@@ -328,8 +346,11 @@ func (m *monC08) AfterBlock(c *Chain, req *abci.RequestFinalizeBlock, res *abci.
 				if !mapped {
 					pc = consHex(data.Validator.Address)
 				}
-				if keyTouched[id] {
+				if keyTouched[id] || stakeTouched[pc] {
 					imprecise[id] = true
+					if stakeTouched[pc] {
+						w.Event("C08", "packets-for-validator-touched-by-staking-tx-in-same-block")
+					}
 					continue
 				}
 				vs, found := b.Vals[pc]
